@@ -24,7 +24,7 @@ def is_limit(o, name):
 
 
 def run(chk, prog):
-    chk.rules_live = ["R1", "R2", "R3", "R4"]
+    chk.rules_live = ["R1", "R2", "R3", "R4", "R5"]
     chk.explanation = (
         "Who-may-call + provenance + loop/recursion rules: Transport::fetch is called only by "
         "fetch_max_size (which always wraps the stream in max_size_adapter), the local-file digest "
@@ -32,12 +32,18 @@ def run(chk, prog):
         "in lib.rs/cache.rs the size bound originates only from the file's own pin or the configured "
         "limit of that role (origins followed through Repository::load -> load_* -> load_delegations "
         "parameters); every CFG loop containing a fetch iterates an in-memory collection or is guarded "
-        "by version < original + max_root_updates; recursion that fetches must carry a bound.")
+        "by version < original + max_root_updates; recursion that fetches must carry a bound. R5: the "
+        "cap itself (max_size_adapter's closure) passes a chunk on only on the edge where the bytes "
+        "received so far including that chunk are <= the bound, counts every Ok chunk, and counts "
+        "before it tests (shared with C05-R4).")
     chk.not_decided = ["wall-clock termination", "transports that never return a chunk"]
     chk.assumptions = ["iterating a slice/range/HashMap that is not modified in the loop terminates"]
     r1_who_may_fetch(chk, prog)
     r2_provenance(chk, prog)
     r3_loops(chk, prog)
+    from .c06 import SubCheck
+    from . import c05
+    c05.r4_adapters(SubCheck(chk, "R5"), prog)
 
 
 def r1_who_may_fetch(chk, prog):
